@@ -51,6 +51,10 @@ class Timer:
         self.start_time = self.env.now
         self.timeout = timeout
         self.expire_time = self.start_time + timeout
+        if self.proc is self.env.active_process:
+            # restarted from the timer's own callback: run() re-reads
+            # expire_time and keeps sleeping until the new expiry
+            return
         if not self.proc.processed:
             self.proc.interrupt("restart timer")
             self.proc = self.env.process(self.run(self.env))
